@@ -1,5 +1,28 @@
 /-
-  C03 for commented documents -- the written text stabilises after one cycle.
+  C03 for commented documents -- "reading any well-formed file, writing the result, and reading the written file yields
+  the same data as the first read … the written text itself stabilises after one cycle".
+
+  Setting: `items` a commented document, `denC c items` what the reader returns for any admissible layout of it
+  (`C12.C12_read_commented`), `writtenDoc2 items` the canonical document of `C12write` (repeated comments dropped, the
+  writer's spelling, top-level block comments first, the default header in front unless the document has its own).
+
+    `fmtSD_explicit`     for every SDict with `WOK sd`:  `fmtSD .native sd = some (removeTrailingSpaces (fmtDoc 0 (docSD sd)))`
+                         — the written text as an explicit function (`fmtDoc`: every entry and comment on its lines) of
+                         the written document; this replaces the "some admissible gaps" of M3 by the gaps themselves
+                         (proved with layouts that carry two texts with the same gaps: `LaysP`, `lays_entriesP`, `fmtT`)
+    `written_text`       `fmtSD .native (denC c items) = some (cycText items)`, `cycText items` a function of
+                         `writtenDoc2 items` alone (not of the ids the counter handed out)
+    `writtenDoc2_idem`   `writtenDoc2 (writtenDoc2 items) = writtenDoc2 items` (with `written_own`: the written document
+                         has a header of its own — also when that is the default header added in the first cycle —,
+                         `written_dedup`, `written_cnorm`, `cnorm_idemI`, `hdr_fresh`)
+    `C03_commented_second_write` / `…'`   writing the re-read SDict gives the bytes of the first write
+    `C03_commented_cycles` / `…'`, `C03_commented_texts`   ALL cycles, the first included, write `cycText items`, and
+                         every re-read is `denC cₙ (writtenDoc2 items)` (ids from the counter at that point)
+    `hw2_written`        the writer hypotheses for the canonical document follow from those for the document, EXCEPT
+                         `indep`; `second_write_needs_indep` (finding): the writer hoists the top-level block comments,
+                         so the table of the re-read lists them in another order, and a nested `/*b*/` that occurs inside
+                         a later top-level comment `/* x /*b*/` is written in cycle 1 and lost in cycle 2
+    `exW_two_cycles`, `exDup_two_cycles`   non-vacuity
 -/
 import DictIO.Props.C12write
 import DictIO.Props.C03
@@ -636,5 +659,998 @@ theorem cnormI_filter_block : ∀ (a : List CItem),
     obtain ⟨h1, h2⟩ := cnormI_filter_block a
     simp only [List.filter_cons, isBlock_block, Bool.false_eq_true, if_false, Bool.not_true, if_true, cnormI, h1, h2]
     exact ⟨trivial, trivial⟩
+
+/-! ### no comment twice at one level -/
+
+def levelNR (items : List CItem) : Prop := (lvlLines items).Nodup ∧ (lvlBlocks items).Nodup
+
+mutual
+  def vNR : CSrc → Prop
+    | .dict items => levelNR items ∧ subsNR items
+    | .lit _ => True
+    | .list _ => True
+  /-- no level below repeats a comment -/
+  def subsNR : List CItem → Prop
+    | [] => True
+    | .entry _ v :: r => vNR v ∧ subsNR r
+    | .lineC _ :: r => subsNR r
+    | .blockC _ :: r => subsNR r
+end
+
+theorem nubFrom_facts : ∀ (l seen : List Str), (nubFrom seen l).Nodup ∧ ∀ y ∈ nubFrom seen l, y ∉ seen ∧ y ∈ l
+  | [], _ => by simp [nubFrom]
+  | x :: r, seen => by
+    simp only [nubFrom]
+    split
+    · obtain ⟨h1, h2⟩ := nubFrom_facts r seen
+      exact ⟨h1, fun y hy => ⟨(h2 y hy).1, List.mem_cons_of_mem _ (h2 y hy).2⟩⟩
+    · next hc =>
+      obtain ⟨h1, h2⟩ := nubFrom_facts r (seen ++ [x])
+      have hx : x ∉ seen := fun hm => hc (List.contains_iff_mem.mpr hm)
+      refine ⟨List.nodup_cons.mpr ⟨fun hm => (h2 x hm).1 (by simp), h1⟩, ?_⟩
+      intro y hy
+      rcases List.mem_cons.mp hy with rfl | hy
+      · exact ⟨hx, List.mem_cons_self⟩
+      · exact ⟨fun hm => (h2 y hy).1 (by simp [hm]), List.mem_cons_of_mem _ (h2 y hy).2⟩
+
+mutual
+  theorem dedup_fixV : ∀ (v : CSrc), vNR v → dedupV v = v
+    | .lit l, _ => by simp only [dedupV]
+    | .list xs, _ => by simp only [dedupV]
+    | .dict items, h => by
+      simp only [vNR, levelNR] at h
+      simp only [dedupV, dedup_fixI items [] [] (by simp) h.1.1 (by simp) h.1.2 h.2]
+  /-- a document without repetitions is left alone -/
+  theorem dedup_fixI : ∀ (items : List CItem) (sl sb : List Str), (∀ x ∈ lvlLines items, x ∉ sl) →
+      (lvlLines items).Nodup → (∀ x ∈ lvlBlocks items, x ∉ sb) → (lvlBlocks items).Nodup → subsNR items →
+      dedupLvl sl sb items = items
+    | [], _, _, _, _, _, _, _ => by simp only [dedupLvl]
+    | .entry k v :: r, sl, sb, h1, h2, h3, h4, h5 => by
+      simp only [lvlLines, lvlBlocks] at h1 h2 h3 h4
+      simp only [subsNR] at h5
+      simp only [dedupLvl, dedup_fixV v h5.1, dedup_fixI r sl sb h1 h2 h3 h4 h5.2]
+    | .lineC x :: r, sl, sb, h1, h2, h3, h4, h5 => by
+      simp only [lvlLines, List.mem_cons, List.nodup_cons] at h1 h2
+      simp only [lvlBlocks] at h3 h4
+      simp only [subsNR] at h5
+      have hx : sl.contains x = false := by
+        cases hc : sl.contains x with
+        | false => rfl
+        | true => exact absurd (List.contains_iff_mem.mp hc) (h1 x (Or.inl rfl))
+      simp only [dedupLvl, hx, Bool.false_eq_true, if_false]
+      rw [dedup_fixI r (sl ++ [x]) sb (by
+        intro y hy hm
+        rcases List.mem_append.mp hm with hm | hm
+        · exact h1 y (Or.inr hy) hm
+        · simp only [List.mem_singleton] at hm; subst hm; exact h2.1 hy) h2.2 h3 h4 h5]
+    | .blockC x :: r, sl, sb, h1, h2, h3, h4, h5 => by
+      simp only [lvlBlocks, List.mem_cons, List.nodup_cons] at h3 h4
+      simp only [lvlLines] at h1 h2
+      simp only [subsNR] at h5
+      have hx : sb.contains x = false := by
+        cases hc : sb.contains x with
+        | false => rfl
+        | true => exact absurd (List.contains_iff_mem.mp hc) (h3 x (Or.inl rfl))
+      simp only [dedupLvl, hx, Bool.false_eq_true, if_false]
+      rw [dedup_fixI r sl (sb ++ [x]) h1 h2 (by
+        intro y hy hm
+        rcases List.mem_append.mp hm with hm | hm
+        · exact h3 y (Or.inr hy) hm
+        · simp only [List.mem_singleton] at hm; subst hm; exact h4.1 hy) h4.2 h5]
+end
+
+mutual
+  theorem dedup_nrV : ∀ (v : CSrc), vNR (dedupV v)
+    | .lit l => by simp only [dedupV, vNR]
+    | .list xs => by simp only [dedupV, vNR]
+    | .dict items => by
+      simp only [dedupV, vNR, levelNR]
+      obtain ⟨a, b, _⟩ := lvl_dedup items [] []
+      rw [a, b]
+      exact ⟨⟨(nubFrom_facts _ []).1, (nubFrom_facts _ []).1⟩, dedup_nrI items [] []⟩
+  /-- what is left after the removal has no repetition below any level -/
+  theorem dedup_nrI : ∀ (items : List CItem) (sl sb : List Str), subsNR (dedupLvl sl sb items)
+    | [], _, _ => by simp only [dedupLvl, subsNR]
+    | .entry k v :: r, sl, sb => by
+      simp only [dedupLvl, subsNR]
+      exact ⟨dedup_nrV v, dedup_nrI r sl sb⟩
+    | .lineC x :: r, sl, sb => by
+      simp only [dedupLvl]
+      split
+      · exact dedup_nrI r sl sb
+      · simp only [subsNR]; exact dedup_nrI r _ sb
+    | .blockC x :: r, sl, sb => by
+      simp only [dedupLvl]
+      split
+      · exact dedup_nrI r sl sb
+      · simp only [subsNR]; exact dedup_nrI r sl _
+end
+
+theorem lvl_cnorm : ∀ (items : List CItem), lvlLines (cnormI items) = lvlLines items ∧
+    lvlBlocks (cnormI items) = lvlBlocks items
+  | [] => by simp [cnormI]
+  | .entry k v :: r => by simp only [cnormI, lvlLines, lvlBlocks, lvl_cnorm r]; exact ⟨trivial, trivial⟩
+  | .lineC x :: r => by simp only [cnormI, lvlLines, lvlBlocks, lvl_cnorm r]; exact ⟨trivial, trivial⟩
+  | .blockC x :: r => by simp only [cnormI, lvlLines, lvlBlocks, lvl_cnorm r]; exact ⟨trivial, trivial⟩
+
+mutual
+  theorem cnorm_nrV : ∀ (v : CSrc), vNR v → vNR (cnormV v)
+    | .lit l, _ => by simp only [cnormV, vNR]
+    | .list xs, _ => by simp only [cnormV, vNR]
+    | .dict items, h => by
+      simp only [vNR, levelNR] at h
+      simp only [cnormV, vNR, levelNR, lvl_cnorm items]
+      exact ⟨h.1, cnorm_nrI items h.2⟩
+  theorem cnorm_nrI : ∀ (items : List CItem), subsNR items → subsNR (cnormI items)
+    | [], _ => by simp only [cnormI, subsNR]
+    | .entry k v :: r, h => by
+      simp only [subsNR] at h
+      simp only [cnormI, subsNR]
+      exact ⟨cnorm_nrV v h.1, cnorm_nrI r h.2⟩
+    | .lineC x :: r, h => by
+      simp only [subsNR] at h
+      simp only [cnormI, subsNR]
+      exact cnorm_nrI r h
+    | .blockC x :: r, h => by
+      simp only [subsNR] at h
+      simp only [cnormI, subsNR]
+      exact cnorm_nrI r h
+end
+
+theorem lvl_append : ∀ (a b : List CItem), lvlLines (a ++ b) = lvlLines a ++ lvlLines b ∧
+    lvlBlocks (a ++ b) = lvlBlocks a ++ lvlBlocks b
+  | [], b => by simp [lvlLines, lvlBlocks]
+  | .entry k v :: a, b => by simp only [List.cons_append, lvlLines, lvlBlocks, lvl_append a b]; exact ⟨trivial, trivial⟩
+  | .lineC x :: a, b => by simp only [List.cons_append, lvlLines, lvlBlocks, lvl_append a b, List.cons_append]; exact ⟨trivial, trivial⟩
+  | .blockC x :: a, b => by simp only [List.cons_append, lvlLines, lvlBlocks, lvl_append a b, List.cons_append]; exact ⟨trivial, trivial⟩
+
+theorem lvl_filter : ∀ (a : List CItem),
+    lvlLines (a.filter isBlockItem) = [] ∧ lvlBlocks (a.filter isBlockItem) = lvlBlocks a ∧
+    lvlLines (a.filter fun it => !isBlockItem it) = lvlLines a ∧ lvlBlocks (a.filter fun it => !isBlockItem it) = []
+  | [] => by simp [lvlLines, lvlBlocks]
+  | .entry k v :: a => by
+    obtain ⟨h1, h2, h3, h4⟩ := lvl_filter a
+    simp only [List.filter_cons, isBlock_entry, Bool.false_eq_true, if_false, Bool.not_false, if_true, lvlLines,
+      lvlBlocks, h1, h2, h3, h4]
+    exact ⟨trivial, trivial, trivial, trivial⟩
+  | .lineC x :: a => by
+    obtain ⟨h1, h2, h3, h4⟩ := lvl_filter a
+    simp only [List.filter_cons, isBlock_line, Bool.false_eq_true, if_false, Bool.not_false, if_true, lvlLines,
+      lvlBlocks, h1, h2, h3, h4]
+    exact ⟨trivial, trivial, trivial, trivial⟩
+  | .blockC x :: a => by
+    obtain ⟨h1, h2, h3, h4⟩ := lvl_filter a
+    simp only [List.filter_cons, isBlock_block, Bool.false_eq_true, if_false, Bool.not_true, if_true, lvlLines,
+      lvlBlocks, h1, h2, h3, h4]
+    exact ⟨trivial, trivial, trivial, trivial⟩
+
+theorem subsNR_append : ∀ (a b : List CItem), subsNR a → subsNR b → subsNR (a ++ b)
+  | [], b, _, hb => by simpa using hb
+  | .entry k v :: a, b, ha, hb => by
+    simp only [subsNR] at ha
+    simp only [List.cons_append, subsNR]
+    exact ⟨ha.1, subsNR_append a b ha.2 hb⟩
+  | .lineC x :: a, b, ha, hb => by
+    simp only [subsNR] at ha
+    simp only [List.cons_append, subsNR]
+    exact subsNR_append a b ha hb
+  | .blockC x :: a, b, ha, hb => by
+    simp only [subsNR] at ha
+    simp only [List.cons_append, subsNR]
+    exact subsNR_append a b ha hb
+
+theorem subsNR_filter (p : CItem → Bool) : ∀ (a : List CItem), subsNR a → subsNR (a.filter p)
+  | [], _ => by simp [subsNR]
+  | .entry k v :: a, h => by
+    simp only [subsNR] at h
+    simp only [List.filter_cons]
+    split
+    · simp only [subsNR]; exact ⟨h.1, subsNR_filter p a h.2⟩
+    · exact subsNR_filter p a h.2
+  | .lineC x :: a, h => by
+    simp only [subsNR] at h
+    simp only [List.filter_cons]
+    split
+    · simp only [subsNR]; exact subsNR_filter p a h
+    · exact subsNR_filter p a h
+  | .blockC x :: a, h => by
+    simp only [subsNR] at h
+    simp only [List.filter_cons]
+    split
+    · simp only [subsNR]; exact subsNR_filter p a h
+    · exact subsNR_filter p a h
+
+/-! ### the first block comment; the default header is no comment of the document -/
+
+mutual
+  theorem blockHead_dedupV : ∀ (v : CSrc), (blockFullsV (dedupV v)).head? = (blockFullsV v).head?
+    | .lit l => by simp only [dedupV]
+    | .list xs => by simp only [dedupV]
+    | .dict items => by simp only [dedupV, blockFullsV, blockHead_dedupI items []]
+  /-- the first block comment of the document is never a repetition -/
+  theorem blockHead_dedupI : ∀ (items : List CItem) (sl : List Str),
+      (blockFullsI (dedupLvl sl [] items)).head? = (blockFullsI items).head?
+    | [], _ => by simp only [dedupLvl]
+    | .entry k v :: r, sl => by
+      simp only [dedupLvl, blockFullsI, List.head?_append, blockHead_dedupV v, blockHead_dedupI r sl]
+    | .lineC x :: r, sl => by
+      simp only [dedupLvl]
+      split
+      · simp only [blockFullsI, blockHead_dedupI r sl]
+      · simp only [blockFullsI, blockHead_dedupI r _]
+    | .blockC x :: r, sl => by
+      simp only [dedupLvl, List.contains_nil, Bool.false_eq_true, if_false, blockFullsI, List.head?_cons]
+end
+
+theorem firstTop_head : ∀ (items : List CItem), firstBlockTop items = true →
+    (blockFullsI items).head? = (lvlBlocks items).head?.map blockFull
+  | [], _ => by simp [blockFullsI, lvlBlocks]
+  | .blockC x :: r, _ => by simp [blockFullsI, lvlBlocks, blockFull]
+  | .lineC x :: r, h => by
+    simp only [firstBlockTop] at h
+    simp only [blockFullsI, lvlBlocks, firstTop_head r h]
+  | .entry k v :: r, h => by
+    simp only [firstBlockTop, Bool.and_eq_true, List.isEmpty_iff] at h
+    simp only [blockFullsI, lvlBlocks, h.1, List.nil_append, firstTop_head r h.2]
+
+theorem nubFrom_head (l : List Str) : (nubFrom [] l).head? = l.head? := by
+  cases l with
+  | nil => rfl
+  | cons x r => simp [nubFrom]
+
+theorem blockFullsI_append : ∀ (a b : List CItem), blockFullsI (a ++ b) = blockFullsI a ++ blockFullsI b
+  | [], b => by simp [blockFullsI]
+  | .entry k v :: a, b => by simp only [List.cons_append, blockFullsI, blockFullsI_append a b, List.append_assoc]
+  | .lineC x :: a, b => by simp only [List.cons_append, blockFullsI, blockFullsI_append a b]
+  | .blockC x :: a, b => by simp only [List.cons_append, blockFullsI, blockFullsI_append a b, List.cons_append]
+
+theorem blockFulls_filterB : ∀ (a : List CItem), blockFullsI (a.filter isBlockItem) = (lvlBlocks a).map blockFull
+  | [] => by simp [blockFullsI, lvlBlocks]
+  | .entry k v :: a => by
+    simp only [List.filter_cons, isBlock_entry, Bool.false_eq_true, if_false, lvlBlocks, blockFulls_filterB a]
+  | .lineC x :: a => by
+    simp only [List.filter_cons, isBlock_line, Bool.false_eq_true, if_false, lvlBlocks, blockFulls_filterB a]
+  | .blockC x :: a => by
+    simp only [List.filter_cons, isBlock_block, if_true, blockFullsI, lvlBlocks, List.map_cons, blockFulls_filterB a,
+      blockFull]
+
+theorem mem_blockFulls : ∀ (items : List CItem) (x : Str), x ∈ lvlBlocks items → blockFull x ∈ blockFullsI items
+  | [], x, h => by simp [lvlBlocks] at h
+  | .entry k v :: r, x, h => by
+    simp only [lvlBlocks] at h
+    simp only [blockFullsI, List.mem_append]
+    exact Or.inr (mem_blockFulls r x h)
+  | .lineC y :: r, x, h => by
+    simp only [lvlBlocks] at h
+    simp only [blockFullsI]
+    exact mem_blockFulls r x h
+  | .blockC y :: r, x, h => by
+    simp only [lvlBlocks, List.mem_cons] at h
+    simp only [blockFullsI, List.mem_cons]
+    rcases h with rfl | h
+    · exact Or.inl rfl
+    · exact Or.inr (mem_blockFulls r x h)
+
+theorem indep_notInfix : ∀ (l : List Str) (s : Str), indepFrom s l = true → ∀ t ∈ l, isInfix t s = false
+  | [], _, _, t, ht => by cases ht
+  | t0 :: r, s, h, t, ht => by
+    simp only [indepFrom, Bool.and_eq_true, Bool.not_eq_true'] at h
+    rcases List.mem_cons.mp ht with rfl | ht
+    · exact h.1
+    · have := indep_notInfix r (s ++ t0) h.2 t ht
+      cases hc : isInfix t s with
+      | false => rfl
+      | true =>
+        obtain ⟨a, b, e⟩ := C01.isInfix_iff.mp hc
+        have : isInfix t (s ++ t0) = true := C01.isInfix_iff.mpr ⟨a, b ++ t0, by rw [e]; simp⟩
+        simp_all
+
+section
+variable {c : Counter} {items : List CItem} (H : HW2 c items)
+include H
+
+/-- the default header is not among the block comments of the document that has no header of its own -/
+theorem hdr_fresh (hown : ownHeaderI items = false) : C12.hdrBody ∉ lvlBlocks (cnormI (dedupI items)) := by
+  intro hm
+  rw [(lvl_cnorm _).2] at hm
+  have hin := mem_blockFulls _ _ hm
+  have hhd : (blockFullsI (dedupI items)).head? = (blockFullsI items).head? := blockHead_dedupI items []
+  have hindep := H.indep
+  cases hb : blockFullsI (dedupI items) with
+  | nil => rw [hb] at hin; cases hin
+  | cons t rest =>
+    rw [hb] at hhd hin
+    simp only [writtenBlocks, hb] at hindep
+    have ht : containsCpp t = false := by
+      simp only [ownHeaderI] at hown
+      cases hbi : blockFullsI items with
+      | nil => rw [hbi] at hhd; simp at hhd
+      | cons t' r' =>
+        rw [hbi] at hhd hown
+        simp only [List.head?_cons, Option.some.injEq] at hhd
+        rw [hhd]; exact hown
+    have hne : blockFull C12.hdrBody ≠ t := by
+      intro e
+      rw [← e, show blockFull C12.hdrBody = C12.hdrComment from C12.hdrComment_shape.symm, C12.hdrComment_cpp] at ht
+      cases ht
+    have hrest : blockFull C12.hdrBody ∈ rest := by
+      rcases List.mem_cons.mp hin with e | h
+      · exact absurd e hne
+      · exact h
+    simp only [indepFrom, Bool.and_eq_true, Bool.not_eq_true'] at hindep
+    have := indep_notInfix rest _ hindep.2 _ hrest
+    rw [C12.makeDefault_native, ht] at this
+    simp only [Bool.false_eq_true, if_false, List.nil_append] at this
+    have hinf : isInfix (blockFull C12.hdrBody) (nativeHeader ++ t) = true := by
+      rw [show blockFull C12.hdrBody = C12.hdrComment from C12.hdrComment_shape.symm, C12.nativeHeader_split]
+      exact C01.isInfix_iff.mpr ⟨[], ['\n'] ++ t, by simp⟩
+    rw [hinf] at this
+    cases this
+
+/-- the written document has a header of its own -/
+theorem written_own : ownHeaderI (writtenDoc2 items) = true := by
+  cases hown : ownHeaderI items with
+  | false =>
+    have e : blockFullsI (writtenDoc2 items) = C12.hdrComment :: blockFullsI (canonItems (dedupI items)) := by
+      simp only [writtenDoc2, hown, Bool.false_eq_true, if_false, List.singleton_append, blockFullsI]
+      rw [show ('/' :: '*' :: C12.hdrBody ++ ['*', '/']) = C12.hdrComment from C12.hdrComment_shape.symm]
+    simp only [ownHeaderI, e]
+    exact C12.hdrComment_cpp
+  | true =>
+    have hown0 := hown
+    simp only [ownHeaderI] at hown
+    cases hbi : blockFullsI items with
+    | nil => rw [hbi] at hown; cases hown
+    | cons t0 r0 =>
+      rw [hbi] at hown
+      have h1 := firstTop_head items H.first
+      rw [hbi] at h1
+      simp only [List.head?_cons] at h1
+      cases hlb : lvlBlocks items with
+      | nil => rw [hlb] at h1; simp at h1
+      | cons x0 rb =>
+        rw [hlb] at h1
+        simp only [List.head?_cons, Option.map_some, Option.some.injEq] at h1
+        have hN : (lvlBlocks (cnormI (dedupI items))).head? = some x0 := by
+          rw [(lvl_cnorm _).2, show dedupI items = dedupLvl [] [] items from rfl, (lvl_dedup items [] []).2.1, nubFrom_head,
+            hlb]
+          rfl
+        cases hl : lvlBlocks (cnormI (dedupI items)) with
+        | nil => rw [hl] at hN; simp at hN
+        | cons y ys =>
+          rw [hl] at hN
+          simp only [List.head?_cons, Option.some.injEq] at hN
+          subst hN
+          have e : blockFullsI (writtenDoc2 items) = t0 :: (ys.map blockFull ++
+              blockFullsI ((cnormI (dedupI items)).filter fun it => !isBlockItem it)) := by
+            simp only [writtenDoc2, hown0, if_true, List.nil_append, canonItems, blockFullsI_append, blockFulls_filterB, hl,
+              List.map_cons, List.cons_append, h1]
+          simp only [ownHeaderI, e]
+          exact hown
+
+/-- the written document repeats no comment -/
+theorem written_dedup : dedupI (writtenDoc2 items) = writtenDoc2 items := by
+  obtain ⟨hl1, hl2, hl3, hl4⟩ := lvl_filter (cnormI (dedupI items))
+  have hnubL := nubFrom_facts (lvlLines items) []
+  have hnubB := nubFrom_facts (lvlBlocks items) []
+  have hLN : (lvlLines (cnormI (dedupI items))).Nodup := by
+    rw [(lvl_cnorm _).1, show dedupI items = dedupLvl [] [] items from rfl, (lvl_dedup items [] []).1]; exact hnubL.1
+  have hBN : (lvlBlocks (cnormI (dedupI items))).Nodup := by
+    rw [(lvl_cnorm _).2, show dedupI items = dedupLvl [] [] items from rfl, (lvl_dedup items [] []).2.1]; exact hnubB.1
+  have hsub : subsNR (cnormI (dedupI items)) := cnorm_nrI _ (dedup_nrI items [] [])
+  apply dedup_fixI _ [] [] (by simp) _ (by simp)
+  · -- block comments
+    simp only [writtenDoc2, canonItems, (lvl_append _ _).2, hl2, hl4, List.append_nil]
+    split
+    · simpa [lvlBlocks] using hBN
+    · next hown =>
+      simp only [lvlBlocks, List.singleton_append, List.nodup_cons]
+      exact ⟨hdr_fresh H (by simpa using hown), hBN⟩
+  · -- sub-levels
+    simp only [writtenDoc2, canonItems]
+    apply subsNR_append
+    · split <;> simp [subsNR]
+    · exact subsNR_append _ _ (subsNR_filter _ _ hsub) (subsNR_filter _ _ hsub)
+  · -- line comments
+    simp only [writtenDoc2, canonItems, (lvl_append _ _).1, hl1, hl3, List.nil_append]
+    split
+    · simpa [lvlLines] using hLN
+    · simpa [lvlLines] using hLN
+
+/-- … and is spelled as the writer spells it -/
+theorem written_cnorm : cnormI (writtenDoc2 items) = writtenDoc2 items := by
+  have hwfd := wf_dedupI items 1 [] [] H.wf
+  have hokd := ok_dedupI items 1 [] [] H.ok
+  have hNN : cnormI (cnormI (dedupI items)) = cnormI (dedupI items) := cnorm_idemI _ 1 hwfd hokd
+  simp only [writtenDoc2, canonItems, cnormI_append, (cnormI_filter_block _).1, (cnormI_filter_block _).2, hNN]
+  split <;> simp [cnormI]
+
+/-- **the canonical document is a fixed point**: canonicalising it again changes nothing -/
+theorem writtenDoc2_idem : writtenDoc2 (writtenDoc2 items) = writtenDoc2 items := by
+  obtain ⟨ht1, ht2⟩ := writtenDoc2_top items
+  rw [writtenDoc2, written_own H, if_pos rfl, List.nil_append, written_dedup H, canonItems, written_cnorm H, ht1, ht2]
+  simp only [writtenDoc2, canonItems, List.append_assoc]
+
+end
+
+/-! ## 5. C03 for commented documents -/
+
+/-- the text every cycle writes -/
+def cycText (items : List CItem) : Str := removeTrailingSpaces (fmtDoc 0 (writtenDoc2 items))
+
+theorem hw2_counter {c c' : Counter} {items : List CItem} (H : HW2 c items) (hc : C13.ValidCounter Gen.counterLimit c') :
+    HW2 c' items :=
+  ⟨⟨H.wf, H.ok, H.keys, H.keysAll, H.nLine, H.nBlock, hc⟩, H.first, H.indep⟩
+
+/-- **C03, second write.**  The text written for the re-read SDict `denC c₂ (writtenDoc2 items)` is, byte for byte,
+    the text written for the first read `denC c items`: both are `cycText items`, a function of the canonical document.
+    `H₂` are the writer hypotheses for the canonical document; they do not follow from `H` (`second_write_needs_indep`). -/
+theorem C03_commented_second_write {c c₂ : Counter} {items : List CItem} (H : HW2 c items)
+    (H₂ : HW2 c₂ (writtenDoc2 items)) :
+    fmtSD .native (denC c items) = some (cycText items) ∧
+    fmtSD .native (denC c₂ (writtenDoc2 items)) = some (cycText items) := by
+  refine ⟨written_text H, ?_⟩
+  rw [written_text H₂, writtenDoc2_idem H]
+  rfl
+
+/-- reading the text a cycle writes: the meaning of the canonical document, the counter valid afterwards -/
+theorem read_cycText {c c₂ : Counter} {items : List CItem} (dir : Str) (H : HW2 c items)
+    (hc₂ : C13.ValidCounter Gen.counterLimit c₂)
+    (hn : C02.countQuotedEs (plainItems (writtenDoc2 items)) ≤ Gen.counterLimit + 1)
+    (hd : C02.DocKeysAbsent (plainItems (writtenDoc2 items))) :
+    ∃ c', C13.ValidCounter Gen.counterLimit c' ∧
+      parseNative true dir c₂ (cycText items) = .ok (denC c₂ (writtenDoc2 items), c') := by
+  obtain ⟨gaps, hw, hg⟩ := C12_write_commented2 H
+  rw [written_text H] at hw
+  have htxt : cycText items = spreadC (ctoksItems (writtenDoc2 items)) ([] :: gaps) ['\n'] := Option.some.inj hw
+  have hread := C12.C12_read_commented dir c₂ (writtenDoc2_wf H) hg (fun _ => by decide) hc₂ hn hd
+  refine ⟨C02.adv Gen.counterLimit (C02.countQuotedEs (plainItems (writtenDoc2 items)))
+      (labelCItems { counter := c₂ } (writtenDoc2 items)).1.counter,
+    C02.adv_valid _ (C12.counter_labelI (writtenDoc2 items) { counter := c₂ } hc₂), ?_⟩
+  rw [htxt]
+  cases hct : ctoksItems (writtenDoc2 items) with
+  | nil =>
+    have e0 : ∀ g : List Str, spreadC [] g ['\n'] = ['\n'] := fun g => rfl
+    rw [hct, e0] at hread
+    rw [e0]
+    exact hread
+  | cons t ts =>
+    have e : spreadC (t :: ts) (['\n'] :: gaps) ['\n'] = '\n' :: spreadC (t :: ts) ([] :: gaps) ['\n'] := by
+      simp [spreadC, spread]
+    rw [hct, e, parseNative_nl] at hread
+    exact hread
+
+/-- `n` cycles "write the SDict, read the text": the text written and the SDict read in each -/
+def cycles (dir : Str) : Nat → SD → Counter → List (Str × SD)
+  | 0, _, _ => []
+  | n + 1, sd, c =>
+    match fmtSD .native sd with
+    | none => []
+    | some t =>
+      match parseNative true dir c t with
+      | .ok (sd', c') => (t, sd') :: cycles dir n sd' c'
+      | .error _ => []
+
+section
+variable {c c₁ : Counter} {items : List CItem} (dir : Str) (H : HW2 c items) (H₂ : HW2 c₁ (writtenDoc2 items))
+  (hn : C02.countQuotedEs (plainItems (writtenDoc2 items)) ≤ Gen.counterLimit + 1)
+  (hd : C02.DocKeysAbsent (plainItems (writtenDoc2 items)))
+include H H₂ hn hd
+
+/-- from any SDict that is written as `cycText items`, every cycle writes `cycText items` and reads the meaning of the
+    canonical document (with the ids the counter hands out at that point) -/
+theorem cycles_from : ∀ (n : Nat) (sd : SD) (c₀ : Counter), fmtSD .native sd = some (cycText items) →
+    C13.ValidCounter Gen.counterLimit c₀ →
+    (cycles dir n sd c₀).length = n ∧
+    ∀ p ∈ cycles dir n sd c₀, p.1 = cycText items ∧
+      ∃ c', C13.ValidCounter Gen.counterLimit c' ∧ p.2 = denC c' (writtenDoc2 items)
+  | 0, _, _, _, _ => ⟨rfl, fun p hp => by cases hp⟩
+  | n + 1, sd, c₀, hw, hc₀ => by
+    obtain ⟨c', hc', hr⟩ := read_cycText dir H hc₀ hn hd
+    have hw' := (C03_commented_second_write H (hw2_counter H₂ hc₀)).2
+    obtain ⟨hlen, hall⟩ := cycles_from n (denC c₀ (writtenDoc2 items)) c' hw' hc'
+    have e : cycles dir (n + 1) sd c₀ =
+        (cycText items, denC c₀ (writtenDoc2 items)) :: cycles dir n (denC c₀ (writtenDoc2 items)) c' := by
+      simp only [cycles, hw, hr]
+    rw [e]
+    refine ⟨by simp [hlen], ?_⟩
+    intro p hp
+    rcases List.mem_cons.mp hp with rfl | hp
+    · exact ⟨rfl, c₀, hc₀, rfl⟩
+    · exact hall p hp
+
+/-- **C03, every cycle.**  Starting from the SDict read from any admissible layout of the commented document
+    (`denC c items`), ALL cycles — the first one included — write the same bytes `cycText items`, and every re-read
+    returns the meaning of the same canonical document `writtenDoc2 items`. -/
+theorem C03_commented_cycles (n : Nat) {c₀ : Counter} (hc₀ : C13.ValidCounter Gen.counterLimit c₀) :
+    (cycles dir n (denC c items) c₀).length = n ∧
+    ∀ p ∈ cycles dir n (denC c items) c₀, p.1 = cycText items ∧
+      ∃ c', C13.ValidCounter Gen.counterLimit c' ∧ p.2 = denC c' (writtenDoc2 items) :=
+  cycles_from dir H H₂ hn hd n _ c₀ (written_text H) hc₀
+
+end
+
+theorem map_replicate_of {α β} (f : α → β) (a : β) : ∀ (l : List α), (∀ p ∈ l, f p = a) → l.map f = List.replicate l.length a
+  | [], _ => rfl
+  | x :: l, h => by
+    simp only [List.map_cons, List.length_cons, List.replicate_succ, h x List.mem_cons_self,
+      map_replicate_of f a l fun p hp => h p (List.mem_cons_of_mem _ hp)]
+
+/-- the texts of `n` cycles: `n` times the same bytes -/
+theorem C03_commented_texts {c c₁ : Counter} {items : List CItem} (dir : Str) (H : HW2 c items)
+    (H₂ : HW2 c₁ (writtenDoc2 items))
+    (hn : C02.countQuotedEs (plainItems (writtenDoc2 items)) ≤ Gen.counterLimit + 1)
+    (hd : C02.DocKeysAbsent (plainItems (writtenDoc2 items))) (n : Nat) {c₀ : Counter}
+    (hc₀ : C13.ValidCounter Gen.counterLimit c₀) :
+    (cycles dir n (denC c items) c₀).map (·.1) = List.replicate n (cycText items) := by
+  obtain ⟨hlen, hall⟩ := C03_commented_cycles dir H H₂ hn hd n hc₀
+  rw [map_replicate_of _ (cycText items) _ (fun p hp => (hall p hp).1), hlen]
+
+/-! ## 6. non-vacuity: two cycles on `exW` and on `exDup` -/
+
+theorem exW_hw2 : HW2 none exW :=
+  ⟨⟨by decide +kernel, by decide +kernel, by decide +kernel, by decide +kernel, by decide +kernel, by decide +kernel,
+    Or.inl rfl⟩, by decide +kernel, by decide +kernel⟩
+
+theorem exW_hw2' : HW2 none (writtenDoc2 exW) :=
+  ⟨⟨by decide +kernel, by decide +kernel, by decide +kernel, by decide +kernel, by decide +kernel, by decide +kernel,
+    Or.inl rfl⟩, by decide +kernel, by decide +kernel⟩
+
+theorem exW_cycText : cycText exW = exWText := by
+  have h1 := written_text exW_hw2
+  rw [exW_written] at h1
+  exact (Option.some.inj h1).symm
+
+/-- two cycles from the SDict read from `exW`: both write `exWText` -/
+theorem exW_two_cycles (dir : Str) :
+    (cycles dir 2 (denC none exW) none).map (·.1) = [exWText, exWText] ∧
+    ∀ p ∈ cycles dir 2 (denC none exW) none, ∃ c', p.2 = denC c' (writtenDoc2 exW) := by
+  have hn : C02.countQuotedEs (plainItems (writtenDoc2 exW)) ≤ Gen.counterLimit + 1 := by decide +kernel
+  have hd : C02.DocKeysAbsent (plainItems (writtenDoc2 exW)) := by decide +kernel
+  refine ⟨?_, fun p hp => ?_⟩
+  · rw [C03_commented_texts dir exW_hw2 exW_hw2' hn hd 2 (Or.inl rfl), exW_cycText]; rfl
+  · obtain ⟨_, c', _, h⟩ := (C03_commented_cycles dir exW_hw2 exW_hw2' hn hd 2 (Or.inl rfl)).2 p hp
+    exact ⟨c', h⟩
+
+theorem exDup_hw2' : HW2 none (writtenDoc2 exDup) :=
+  ⟨⟨by decide +kernel, by decide +kernel, by decide +kernel, by decide +kernel, by decide +kernel, by decide +kernel,
+    Or.inl rfl⟩, by decide +kernel, by decide +kernel⟩
+
+theorem exDup_cycText : cycText exDup = exDupText := by
+  have h1 := written_text exDup_hw
+  rw [exDup_written] at h1
+  exact (Option.some.inj h1).symm
+
+/-- two cycles from the SDict read from `exDup` (repeated comments): both write `exDupText` -/
+theorem exDup_two_cycles (dir : Str) :
+    (cycles dir 2 (denC none exDup) none).map (·.1) = [exDupText, exDupText] ∧
+    ∀ p ∈ cycles dir 2 (denC none exDup) none, ∃ c', p.2 = denC c' (writtenDoc2 exDup) := by
+  have hn : C02.countQuotedEs (plainItems (writtenDoc2 exDup)) ≤ Gen.counterLimit + 1 := by decide +kernel
+  have hd : C02.DocKeysAbsent (plainItems (writtenDoc2 exDup)) := by decide +kernel
+  refine ⟨?_, fun p hp => ?_⟩
+  · rw [C03_commented_texts dir exDup_hw exDup_hw2' hn hd 2 (Or.inl rfl), exDup_cycText]; rfl
+  · obtain ⟨_, c', _, h⟩ := (C03_commented_cycles dir exDup_hw exDup_hw2' hn hd 2 (Or.inl rfl)).2 p hp
+    exact ⟨c', h⟩
+
+/-! ## 7. the writer hypotheses for the canonical document do not follow: the order of the block comments changes -/
+
+/-- `/* C++ A */ sub { /*b*/ } /* x /*b*/` — the nested comment `/*b*/` occurs inside the later top-level comment -/
+def exO : List CItem :=
+  [.blockC " C++ A ".toList, .entry "sub".toList (.dict [.blockC "b".toList]), .blockC " x /*b".toList]
+
+def exOData (i j : String) : Entries :=
+  [ (.str "BLOCKCOMMENT000000".toList, .leaf (.str "BLOCKCOMMENT000000".toList)),
+    (.str i.toList, .leaf (.str i.toList)),
+    (.str "sub".toList, .dict [(.str j.toList, .leaf (.str j.toList))]) ]
+
+theorem exO_raw (i j : String) (hi : i.toList.length = 18) (hj : j.toList.length = 18)
+    (hfi : formatString .native i.toList = i.toList) (hfj : formatString .native j.toList = j.toList) :
+    fmtEntries .native 0 (exOData i j) =
+      "BLOCKCOMMENT000000            BLOCKCOMMENT000000;\n".toList ++ i.toList ++ spaces 12 ++ i.toList ++ ";\n".toList ++
+      "sub\n{\n    ".toList ++ j.toList ++ spaces 8 ++ j.toList ++ ";\n}\n".toList := by
+  have h0 : formatString .native "BLOCKCOMMENT000000".toList = "BLOCKCOMMENT000000".toList := by decide +kernel
+  simp only [exOData, fmtEntries, fline, formatKey, formatScalar, keyStr, hfi, hfj, hi, hj, h0]
+  simp [spaces]
+
+/-- **finding (a second cycle can lose a block comment).**  `HW2` holds for `exO`: in the source the nested `/*b*/`
+    comes before `/* x /*b*/`, so the `bc in sofar` test of `insert_block_comments` does not fire.  The writer hoists
+    the top-level block comments, so in the written file — and in the table of its re-read — `/* x /*b*/` comes first;
+    in the second cycle `/*b*/` is found inside what was written before it and is written as the empty text.  Hence
+    the hypothesis `H₂` of `C03_commented_second_write` (its `indep` part is false here). -/
+theorem second_write_needs_indep :
+    HW2 none exO ∧
+    fmtSD .native (denC none exO) = some "/* C++ A */\n/* x /*b*/\nsub\n{\n    /*b*/\n}\n".toList ∧
+    fmtSD .native (denC none (writtenDoc2 exO)) = some "/* C++ A */\n/* x /*b*/\nsub\n{\n\n}\n".toList ∧
+    indepFrom [] (writtenBlocks (dedupI (writtenDoc2 exO))) = false := by
+  refine ⟨⟨⟨by decide +kernel, by decide +kernel, by decide +kernel, by decide +kernel, by decide +kernel,
+    by decide +kernel, Or.inl rfl⟩, by decide +kernel, by decide +kernel⟩, ?_, ?_, by decide +kernel⟩
+  · have h : hoistPlaceholders (denC none exO).data = exOData "BLOCKCOMMENT000002" "BLOCKCOMMENT000001" ∧
+        (denC none exO).lineC = [] ∧
+        (denC none exO).blockC = [(0, "/* C++ A */".toList), (1, "/*b*/".toList), (2, "/* x /*b*/".toList)] ∧
+        (denC none exO).incl = [] := by decide +kernel
+    rw [fmtSD_noIncl _ h.2.2.2, h.1, h.2.1, h.2.2.1,
+      exO_raw _ _ (by decide +kernel) (by decide +kernel) (by decide +kernel) (by decide +kernel)]
+    decide +kernel
+  · have h : hoistPlaceholders (denC none (writtenDoc2 exO)).data = exOData "BLOCKCOMMENT000001" "BLOCKCOMMENT000002" ∧
+        (denC none (writtenDoc2 exO)).lineC = [] ∧
+        (denC none (writtenDoc2 exO)).blockC =
+          [(0, "/* C++ A */".toList), (1, "/* x /*b*/".toList), (2, "/*b*/".toList)] ∧
+        (denC none (writtenDoc2 exO)).incl = [] := by decide +kernel
+    rw [fmtSD_noIncl _ h.2.2.2, h.1, h.2.1, h.2.2.1,
+      exO_raw _ _ (by decide +kernel) (by decide +kernel) (by decide +kernel) (by decide +kernel)]
+    decide +kernel
+
+/-! ## 8. the writer hypotheses for the canonical document: all but `indep` follow -/
+
+theorem okI_append (d : Nat) : ∀ (a b : List CItem), okI d (a ++ b) = (okI d a && okI d b)
+  | [], b => by simp [okI]
+  | .entry k v :: a, b => by simp only [List.cons_append, okI, okI_append d a b, Bool.and_assoc]
+  | .lineC x :: a, b => by simp only [List.cons_append, okI, okI_append d a b, Bool.and_assoc]
+  | .blockC x :: a, b => by simp only [List.cons_append, okI, okI_append d a b, Bool.and_assoc]
+
+theorem okI_filter (d : Nat) (p : CItem → Bool) : ∀ (a : List CItem), okI d a = true → okI d (a.filter p) = true
+  | [], _ => by simp [okI]
+  | .entry k v :: a, h => by
+    simp only [okI, Bool.and_eq_true] at h
+    simp only [List.filter_cons]
+    split
+    · simp only [okI, Bool.and_eq_true]; exact ⟨h.1, okI_filter d p a h.2⟩
+    · exact okI_filter d p a h.2
+  | .lineC x :: a, h => by
+    simp only [okI, Bool.and_eq_true] at h
+    simp only [List.filter_cons]
+    split
+    · simp only [okI, Bool.and_eq_true]; exact ⟨h.1, okI_filter d p a h.2⟩
+    · exact okI_filter d p a h.2
+  | .blockC x :: a, h => by
+    simp only [okI, Bool.and_eq_true] at h
+    simp only [List.filter_cons]
+    split
+    · simp only [okI, Bool.and_eq_true]; exact ⟨h.1, okI_filter d p a h.2⟩
+    · exact okI_filter d p a h.2
+
+mutual
+  theorem ok_cnormV : ∀ (v : CSrc) (d : Nat), CSrcWFV d v = true → okV d v = true → okV d (cnormV v) = true
+    | .lit l, d, hwf, hok => by
+      simp only [CSrcWFV, okV, Bool.and_eq_true] at hwf hok
+      simp only [cnormV, okV, C01.den_writtenLit hok.1, C03.normScalar_den hwf.1, Bool.and_eq_true]
+      exact hok
+    | .list xs, d, hwf, hok => by
+      simp only [CSrcWFV, okV] at hwf hok
+      simp only [cnormV, okV, C01.den_srcOfXs (d + 1) _ hok, C03.norm_denXs (d + 1) xs hwf]
+      exact hok
+    | .dict items, d, hwf, hok => by
+      simp only [CSrcWFV, okV] at hwf hok
+      simp only [cnormV, okV]
+      exact ok_cnormI items (d + 1) hwf hok
+  /-- the document in the writer's spelling satisfies the domain conditions again -/
+  theorem ok_cnormI : ∀ (items : List CItem) (d : Nat), CSrcWFItems d items = true → okI d items = true →
+      okI d (cnormI items) = true
+    | [], _, _, _ => by simp [cnormI, okI]
+    | .entry k v :: r, d, hwf, hok => by
+      simp only [CSrcWFItems, okI, Bool.and_eq_true] at hwf hok
+      simp only [cnormI, okI, Bool.and_eq_true, keyOfStr_keyStr hok.1.1]
+      exact ⟨⟨hok.1.1, ok_cnormV v d hwf.1.2 hok.1.2⟩, ok_cnormI r d hwf.2 hok.2⟩
+    | .lineC x :: r, d, hwf, hok => by
+      simp only [CSrcWFItems, okI, Bool.and_eq_true] at hwf hok
+      simp only [cnormI, okI, Bool.and_eq_true]
+      exact ⟨hok.1, ok_cnormI r d hwf.2 hok.2⟩
+    | .blockC x :: r, d, hwf, hok => by
+      simp only [CSrcWFItems, okI, Bool.and_eq_true] at hwf hok
+      simp only [cnormI, okI, Bool.and_eq_true]
+      exact ⟨hok.1, ok_cnormI r d hwf.2 hok.2⟩
+end
+
+theorem levelKeys_append : ∀ (a b : List CItem), levelKeys (a ++ b) = levelKeys a ++ levelKeys b
+  | [], b => by simp [levelKeys]
+  | .entry k v :: a, b => by simp only [List.cons_append, levelKeys, levelKeys_append a b]
+  | .lineC x :: a, b => by simp only [List.cons_append, levelKeys, levelKeys_append a b]
+  | .blockC x :: a, b => by simp only [List.cons_append, levelKeys, levelKeys_append a b]
+
+theorem levelKeys_filter : ∀ (a : List CItem), levelKeys (a.filter isBlockItem) = [] ∧
+    levelKeys (a.filter fun it => !isBlockItem it) = levelKeys a
+  | [] => by simp [levelKeys]
+  | .entry k v :: a => by
+    obtain ⟨h1, h2⟩ := levelKeys_filter a
+    simp only [List.filter_cons, isBlock_entry, Bool.false_eq_true, if_false, Bool.not_false, if_true, levelKeys, h1, h2]
+    exact ⟨trivial, trivial⟩
+  | .lineC x :: a => by
+    obtain ⟨h1, h2⟩ := levelKeys_filter a
+    simp only [List.filter_cons, isBlock_line, Bool.false_eq_true, if_false, Bool.not_false, if_true, levelKeys, h1, h2]
+    exact ⟨trivial, trivial⟩
+  | .blockC x :: a => by
+    obtain ⟨h1, h2⟩ := levelKeys_filter a
+    simp only [List.filter_cons, isBlock_block, Bool.false_eq_true, if_false, Bool.not_true, if_true, levelKeys, h1, h2]
+    exact ⟨trivial, trivial⟩
+
+theorem levelKeys_cnorm {d : Nat} : ∀ (items : List CItem), okI d items = true → levelKeys (cnormI items) = levelKeys items
+  | [], _ => by simp [cnormI]
+  | .entry k v :: r, h => by
+    simp only [okI, Bool.and_eq_true] at h
+    simp only [cnormI, levelKeys, keyOfStr_keyStr h.1.1, levelKeys_cnorm r h.2]
+  | .lineC x :: r, h => by
+    simp only [okI, Bool.and_eq_true] at h
+    simp only [cnormI, levelKeys, levelKeys_cnorm r h.2]
+  | .blockC x :: r, h => by
+    simp only [okI, Bool.and_eq_true] at h
+    simp only [cnormI, levelKeys, levelKeys_cnorm r h.2]
+
+theorem klvI_append : ∀ (a b : List CItem), klvI (a ++ b) = (klvI a && klvI b)
+  | [], b => by simp [klvI]
+  | .entry k v :: a, b => by simp only [List.cons_append, klvI, klvI_append a b, Bool.and_assoc]
+  | .lineC x :: a, b => by simp only [List.cons_append, klvI, klvI_append a b]
+  | .blockC x :: a, b => by simp only [List.cons_append, klvI, klvI_append a b]
+
+theorem klvI_filter (p : CItem → Bool) : ∀ (a : List CItem), klvI a = true → klvI (a.filter p) = true
+  | [], _ => by simp [klvI]
+  | .entry k v :: a, h => by
+    simp only [klvI, Bool.and_eq_true] at h
+    simp only [List.filter_cons]
+    split
+    · simp only [klvI, Bool.and_eq_true]; exact ⟨h.1, klvI_filter p a h.2⟩
+    · exact klvI_filter p a h.2
+  | .lineC x :: a, h => by
+    simp only [klvI] at h
+    simp only [List.filter_cons]
+    split
+    · simp only [klvI]; exact klvI_filter p a h
+    · exact klvI_filter p a h
+  | .blockC x :: a, h => by
+    simp only [klvI] at h
+    simp only [List.filter_cons]
+    split
+    · simp only [klvI]; exact klvI_filter p a h
+    · exact klvI_filter p a h
+
+mutual
+  theorem klv_cnormV : ∀ (v : CSrc) (d : Nat), okV d v = true → klvV v = true → klvV (cnormV v) = true
+    | .lit l, _, _, _ => by simp only [cnormV, klvV]
+    | .list xs, _, _, _ => by simp only [cnormV, klvV]
+    | .dict items, d, hok, h => by
+      simp only [okV] at hok
+      simp only [klvV, Bool.and_eq_true, decide_eq_true_eq] at h
+      simp only [cnormV, klvV, Bool.and_eq_true, decide_eq_true_eq, levelKeys_cnorm items hok]
+      exact ⟨h.1, klv_cnormI items (d + 1) hok h.2⟩
+  theorem klv_cnormI : ∀ (items : List CItem) (d : Nat), okI d items = true → klvI items = true →
+      klvI (cnormI items) = true
+    | [], _, _, _ => by simp [cnormI, klvI]
+    | .entry k v :: r, d, hok, h => by
+      simp only [okI, Bool.and_eq_true] at hok
+      simp only [klvI, Bool.and_eq_true] at h
+      simp only [cnormI, klvI, Bool.and_eq_true]
+      exact ⟨klv_cnormV v d hok.1.2 h.1, klv_cnormI r d hok.2 h.2⟩
+    | .lineC x :: r, d, hok, h => by
+      simp only [okI, Bool.and_eq_true] at hok
+      simp only [klvI] at h
+      simp only [cnormI, klvI]
+      exact klv_cnormI r d hok.2 h
+    | .blockC x :: r, d, hok, h => by
+      simp only [okI, Bool.and_eq_true] at hok
+      simp only [klvI] at h
+      simp only [cnormI, klvI]
+      exact klv_cnormI r d hok.2 h
+end
+
+mutual
+  theorem klv_dedupV : ∀ (v : CSrc), klvV v = true → klvV (dedupV v) = true
+    | .lit l, _ => by simp only [dedupV, klvV]
+    | .list xs, _ => by simp only [dedupV, klvV]
+    | .dict items, h => by
+      simp only [klvV, Bool.and_eq_true, decide_eq_true_eq] at h
+      simp only [dedupV, klvV, Bool.and_eq_true, decide_eq_true_eq, (lvl_dedup items [] []).2.2]
+      exact ⟨h.1, klv_dedupI items [] [] h.2⟩
+  theorem klv_dedupI : ∀ (items : List CItem) (sl sb : List Str), klvI items = true → klvI (dedupLvl sl sb items) = true
+    | [], _, _, _ => by simp [dedupLvl, klvI]
+    | .entry k v :: r, sl, sb, h => by
+      simp only [klvI, Bool.and_eq_true] at h
+      simp only [dedupLvl, klvI, Bool.and_eq_true]
+      exact ⟨klv_dedupV v h.1, klv_dedupI r sl sb h.2⟩
+    | .lineC x :: r, sl, sb, h => by
+      simp only [klvI] at h
+      simp only [dedupLvl]
+      split
+      · exact klv_dedupI r sl sb h
+      · simp only [klvI]; exact klv_dedupI r _ sb h
+    | .blockC x :: r, sl, sb, h => by
+      simp only [klvI] at h
+      simp only [dedupLvl]
+      split
+      · exact klv_dedupI r sl sb h
+      · simp only [klvI]; exact klv_dedupI r sl _ h
+end
+
+theorem lineFullsI_append : ∀ (a b : List CItem), lineFullsI (a ++ b) = lineFullsI a ++ lineFullsI b
+  | [], b => by simp [lineFullsI]
+  | .entry k v :: a, b => by simp only [List.cons_append, lineFullsI, lineFullsI_append a b, List.append_assoc]
+  | .lineC x :: a, b => by simp only [List.cons_append, lineFullsI, lineFullsI_append a b, List.cons_append]
+  | .blockC x :: a, b => by simp only [List.cons_append, lineFullsI, lineFullsI_append a b]
+
+theorem lineFulls_filter : ∀ (a : List CItem), lineFullsI (a.filter isBlockItem) = [] ∧
+    lineFullsI (a.filter fun it => !isBlockItem it) = lineFullsI a
+  | [] => by simp [lineFullsI]
+  | .entry k v :: a => by
+    obtain ⟨h1, h2⟩ := lineFulls_filter a
+    simp only [List.filter_cons, isBlock_entry, Bool.false_eq_true, if_false, Bool.not_false, if_true, lineFullsI, h1, h2]
+    exact ⟨trivial, trivial⟩
+  | .lineC x :: a => by
+    obtain ⟨h1, h2⟩ := lineFulls_filter a
+    simp only [List.filter_cons, isBlock_line, Bool.false_eq_true, if_false, Bool.not_false, if_true, lineFullsI, h1, h2]
+    exact ⟨trivial, trivial⟩
+  | .blockC x :: a => by
+    obtain ⟨h1, h2⟩ := lineFulls_filter a
+    simp only [List.filter_cons, isBlock_block, Bool.false_eq_true, if_false, Bool.not_true, if_true, lineFullsI, h1, h2]
+    exact ⟨trivial, trivial⟩
+
+mutual
+  theorem lineFulls_cnormV : ∀ (v : CSrc), lineFullsV (cnormV v) = lineFullsV v
+    | .lit l => by simp only [cnormV, lineFullsV]
+    | .list xs => by simp only [cnormV, lineFullsV]
+    | .dict items => by simp only [cnormV, lineFullsV, lineFulls_cnormI items]
+  theorem lineFulls_cnormI : ∀ (items : List CItem), lineFullsI (cnormI items) = lineFullsI items
+    | [] => by simp only [cnormI]
+    | .entry k v :: r => by simp only [cnormI, lineFullsI, lineFulls_cnormV v, lineFulls_cnormI r]
+    | .lineC x :: r => by simp only [cnormI, lineFullsI, lineFulls_cnormI r]
+    | .blockC x :: r => by simp only [cnormI, lineFullsI, lineFulls_cnormI r]
+end
+
+mutual
+  theorem count_dedupV : ∀ (v : CSrc), (lineFullsV (dedupV v)).length ≤ (lineFullsV v).length ∧
+      (blockFullsV (dedupV v)).length ≤ (blockFullsV v).length
+    | .lit l => by simp only [dedupV]; exact ⟨Nat.le_refl _, Nat.le_refl _⟩
+    | .list xs => by simp only [dedupV]; exact ⟨Nat.le_refl _, Nat.le_refl _⟩
+    | .dict items => by simp only [dedupV, lineFullsV, blockFullsV]; exact count_dedupI items [] []
+  /-- the removal of repetitions does not add comments -/
+  theorem count_dedupI : ∀ (items : List CItem) (sl sb : List Str),
+      (lineFullsI (dedupLvl sl sb items)).length ≤ (lineFullsI items).length ∧
+      (blockFullsI (dedupLvl sl sb items)).length ≤ (blockFullsI items).length
+    | [], _, _ => by simp [dedupLvl]
+    | .entry k v :: r, sl, sb => by
+      obtain ⟨a1, a2⟩ := count_dedupV v
+      obtain ⟨b1, b2⟩ := count_dedupI r sl sb
+      simp only [dedupLvl, lineFullsI, blockFullsI, List.length_append]
+      exact ⟨by omega, by omega⟩
+    | .lineC x :: r, sl, sb => by
+      simp only [dedupLvl]
+      split
+      · obtain ⟨b1, b2⟩ := count_dedupI r sl sb
+        simp only [lineFullsI, blockFullsI, List.length_cons]
+        exact ⟨by omega, b2⟩
+      · obtain ⟨b1, b2⟩ := count_dedupI r (sl ++ [x]) sb
+        simp only [lineFullsI, blockFullsI, List.length_cons]
+        exact ⟨by omega, b2⟩
+    | .blockC x :: r, sl, sb => by
+      simp only [dedupLvl]
+      split
+      · obtain ⟨b1, b2⟩ := count_dedupI r sl sb
+        simp only [lineFullsI, blockFullsI, List.length_cons]
+        exact ⟨b1, by omega⟩
+      · obtain ⟨b1, b2⟩ := count_dedupI r sl (sb ++ [x])
+        simp only [lineFullsI, blockFullsI, List.length_cons]
+        exact ⟨b1, by omega⟩
+end
+
+theorem blockFulls_filter_len : ∀ (a : List CItem),
+    (blockFullsI (a.filter isBlockItem)).length + (blockFullsI (a.filter fun it => !isBlockItem it)).length =
+      (blockFullsI a).length
+  | [] => by simp [blockFullsI]
+  | .entry k v :: a => by
+    have ih := blockFulls_filter_len a
+    simp only [List.filter_cons, isBlock_entry, Bool.false_eq_true, if_false, Bool.not_false, if_true, blockFullsI,
+      List.length_append]
+    omega
+  | .lineC x :: a => by
+    have ih := blockFulls_filter_len a
+    simp only [List.filter_cons, isBlock_line, Bool.false_eq_true, if_false, Bool.not_false, if_true, blockFullsI]
+    exact ih
+  | .blockC x :: a => by
+    have ih := blockFulls_filter_len a
+    simp only [List.filter_cons, isBlock_block, Bool.false_eq_true, if_false, Bool.not_true, if_true, blockFullsI,
+      List.length_cons]
+    omega
+
+theorem filterB_map : ∀ (a : List CItem), a.filter isBlockItem = (lvlBlocks a).map CItem.blockC
+  | [] => by simp [lvlBlocks]
+  | .entry k v :: a => by simp only [List.filter_cons, isBlock_entry, Bool.false_eq_true, if_false, lvlBlocks, filterB_map a]
+  | .lineC x :: a => by simp only [List.filter_cons, isBlock_line, Bool.false_eq_true, if_false, lvlBlocks, filterB_map a]
+  | .blockC x :: a => by simp only [List.filter_cons, isBlock_block, if_true, lvlBlocks, List.map_cons, filterB_map a]
+
+/-- **the writer hypotheses for the canonical document**: they follow from those for the document, except that the
+    block comments must be independent in the order in which the canonical document lists them (`hind`; it does not
+    follow: `second_write_needs_indep`), and that there is room for the default header among the 10^6 block ids. -/
+theorem hw2_written {c c₂ : Counter} {items : List CItem} (H : HW2 c items)
+    (hc₂ : C13.ValidCounter Gen.counterLimit c₂) (hblk : (blockFullsI items).length < 1000000)
+    (hind : indepFrom [] (writtenBlocks (writtenDoc2 items)) = true) : HW2 c₂ (writtenDoc2 items) := by
+  have hwfd : CSrcWFItems 1 (dedupI items) = true := wf_dedupI items 1 [] [] H.wf
+  have hokd : okI 1 (dedupI items) = true := ok_dedupI items 1 [] [] H.ok
+  have hokN : okI 1 (cnormI (dedupI items)) = true := ok_cnormI _ 1 hwfd hokd
+  have hkd : levelKeys (dedupI items) = levelKeys items := (lvl_dedup items [] []).2.2
+  have hkN : levelKeys (cnormI (dedupI items)) = levelKeys items := by
+    rw [levelKeys_cnorm _ hokd]; exact hkd
+  have hklN : klvI (cnormI (dedupI items)) = true := klv_cnormI _ 1 hokd (klv_dedupI items [] [] H.keysAll)
+  have cl : (lineFullsI (dedupI items)).length ≤ (lineFullsI items).length := (count_dedupI items [] []).1
+  have cb : (blockFullsI (dedupI items)).length ≤ (blockFullsI items).length := (count_dedupI items [] []).2
+  refine ⟨⟨writtenDoc2_wf H, ?_, ?_, ?_, ?_, ?_, hc₂⟩, ?_, ?_⟩
+  · -- ok
+    simp only [writtenDoc2, canonItems, okI_append, okI_filter 1 _ _ hokN, Bool.and_true]
+    split
+    · simp [okI]
+    · have : blockTextOK C12.hdrBody = true := by decide +kernel
+      simp [okI, this]
+  · -- keys of the top level
+    have : levelKeys (writtenDoc2 items) = levelKeys items := by
+      simp only [writtenDoc2, canonItems, levelKeys_append, (levelKeys_filter _).1, (levelKeys_filter _).2, hkN,
+        List.nil_append]
+      split <;> simp [levelKeys]
+    rw [this]; exact H.keys
+  · -- keys below
+    simp only [writtenDoc2, canonItems, klvI_append, klvI_filter _ _ hklN, Bool.and_true]
+    split <;> simp [klvI]
+  · -- line comments
+    have : lineFullsI (writtenDoc2 items) = lineFullsI (dedupI items) := by
+      simp only [writtenDoc2, canonItems, lineFullsI_append, (lineFulls_filter _).1, (lineFulls_filter _).2,
+        lineFulls_cnormI, List.nil_append]
+      split <;> simp [lineFullsI]
+    rw [this]
+    have := H.nLine
+    exact Nat.le_trans cl this
+  · -- block comments
+    have hlen := blockFulls_filter_len (cnormI (dedupI items))
+    rw [blockFulls_cnormI] at hlen
+    have : (blockFullsI (writtenDoc2 items)).length ≤ 1 + (blockFullsI (dedupI items)).length := by
+      simp only [writtenDoc2, canonItems, blockFullsI_append, List.length_append]
+      split
+      · simp only [blockFullsI, List.length_nil]; omega
+      · simp only [blockFullsI, List.length_cons, List.length_nil]; omega
+    omega
+  · -- the first block comment stands at the top
+    cases hown : ownHeaderI items with
+    | false => simp only [writtenDoc2, hown, Bool.false_eq_true, if_false, List.singleton_append, firstBlockTop]
+    | true =>
+      have hwo := written_own H
+      simp only [writtenDoc2, hown, if_true, List.nil_append, canonItems, filterB_map] at hwo ⊢
+      cases hl : lvlBlocks (cnormI (dedupI items)) with
+      | cons y ys => simp only [List.map_cons, List.cons_append, firstBlockTop]
+      | nil =>
+        -- impossible: an own header is a top-level block comment
+        exfalso
+        simp only [ownHeaderI] at hown
+        cases hbi : blockFullsI items with
+        | nil => rw [hbi] at hown; cases hown
+        | cons t0 r0 =>
+          have h1 := firstTop_head items H.first
+          rw [hbi] at h1
+          cases hlb : lvlBlocks items with
+          | nil => rw [hlb] at h1; simp at h1
+          | cons x0 rb =>
+            have hN : (lvlBlocks (cnormI (dedupI items))).head? = some x0 := by
+              rw [(lvl_cnorm _).2, show dedupI items = dedupLvl [] [] items from rfl, (lvl_dedup items [] []).2.1,
+                nubFrom_head, hlb]
+              rfl
+            rw [hl] at hN
+            cases hN
+  · rw [written_dedup H]; exact hind
+
+/-- **C03, second write, sharp form**: the only hypotheses on the canonical document are the independence of its block
+    comments in its own order and the room for the default header. -/
+theorem C03_commented_second_write' {c c₂ : Counter} {items : List CItem} (H : HW2 c items)
+    (hc₂ : C13.ValidCounter Gen.counterLimit c₂) (hblk : (blockFullsI items).length < 1000000)
+    (hind : indepFrom [] (writtenBlocks (writtenDoc2 items)) = true) :
+    fmtSD .native (denC c items) = some (cycText items) ∧
+    fmtSD .native (denC c₂ (writtenDoc2 items)) = some (cycText items) :=
+  C03_commented_second_write H (hw2_written H hc₂ hblk hind)
+
+/-- **C03, every cycle, sharp form** -/
+theorem C03_commented_cycles' {c : Counter} {items : List CItem} (dir : Str) (H : HW2 c items)
+    (hblk : (blockFullsI items).length < 1000000)
+    (hind : indepFrom [] (writtenBlocks (writtenDoc2 items)) = true)
+    (hn : C02.countQuotedEs (plainItems (writtenDoc2 items)) ≤ Gen.counterLimit + 1)
+    (hd : C02.DocKeysAbsent (plainItems (writtenDoc2 items))) (n : Nat) {c₀ : Counter}
+    (hc₀ : C13.ValidCounter Gen.counterLimit c₀) :
+    (cycles dir n (denC c items) c₀).map (·.1) = List.replicate n (cycText items) ∧
+    ∀ p ∈ cycles dir n (denC c items) c₀,
+      ∃ c', C13.ValidCounter Gen.counterLimit c' ∧ p.2 = denC c' (writtenDoc2 items) := by
+  have H₂ : HW2 none (writtenDoc2 items) := hw2_written H (Or.inl rfl) hblk hind
+  exact ⟨C03_commented_texts dir H H₂ hn hd n hc₀,
+    fun p hp => ((C03_commented_cycles dir H H₂ hn hd n hc₀).2 p hp).2⟩
 
 end DictIO.C03c
